@@ -123,7 +123,7 @@ class C19(Prop):
             "injected concurrently) through the real NewPrometheusMiddleware with a fresh registry per case: start, end "
             "(inner handler returns / context cancelled / recv channel closed), client messages REQ CLOSE EVENT COUNT AUTH "
             "and an unknown type, server messages CLOSED EOSE EVENT OK NOTICE COUNT AUTH and an unknown type, subscription "
-            "ids from {a,b,c,empty string}, kinds from {0,1,7,30023,-1} (62%) and {65535, 65536, 65537, 131073, -65535, 2^32, 2^32+1, 2^63-1, "
+            "ids from {a, b, c, the empty string, two 65-byte ids with a common 64-byte prefix}, kinds from {0,1,7,30023,-1} (62%) and {65535, 65536, 65537, 131073, -65535, 2^32, 2^32+1, 2^63-1, "
             "-2^63} (kinds outside 0..65535 that agree with a smaller member modulo 2^16 or 2^32, and the ends of int64); "
             "Registry.Gather() after every group; both sides of the "
             "middleware recorded.  One tenth more histories use the transport 'ws': the sessions (2..5) are WebSocket connections "
